@@ -2,6 +2,7 @@ package main
 
 import (
 	"fmt"
+	"strconv"
 	"go/constant"
 	"go/token"
 	"go/types"
@@ -121,6 +122,9 @@ func (e *Env) coerce(t Term, s Sort) Term {
 	if t.Sort.Kind == KMath && s.Kind == KRef || t.Sort.Kind == KRef && s.Kind == KMath {
 		return Term{S: t.S, Sort: s}
 	}
+	if t.Sort.Kind == KMath && s.Kind == KInt && e.fv.Mode == ModeBV {
+		return Term{S: mathToBV(t.S, s), Sort: s}
+	}
 	e.fail("cannot use %s as %s", t.Sort, s)
 	return t
 }
@@ -156,6 +160,12 @@ func (e *Env) unify(a, b Term) (Term, Term) {
 	}
 	if (a.Sort.Kind == KRef || a.Sort.Kind == KMath) && (b.Sort.Kind == KRef || b.Sort.Kind == KMath) {
 		return a, Term{S: b.S, Sort: a.Sort}
+	}
+	if e.fv.Mode == ModeBV && a.Sort.Kind == KMath && b.Sort.Kind == KInt {
+		return e.coerce(a, b.Sort), b
+	}
+	if e.fv.Mode == ModeBV && b.Sort.Kind == KMath && a.Sort.Kind == KInt {
+		return a, e.coerce(b, a.Sort)
 	}
 	e.fail("operands have different sorts: %s and %s", a.Sort, b.Sort)
 	return a, b
@@ -268,6 +278,13 @@ func (e *Env) quant(x EQuant) Term {
 	}
 	rng := smtAnd(fv.ile(lo.S, bv), fv.ilt(bv, hi.S))
 	if x.Forall {
+		if pats := selectPatterns(body.S, bv); len(pats) > 0 {
+			var ps string
+			for _, p := range pats {
+				ps += " :pattern (" + p + ")"
+			}
+			return Term{S: fmt.Sprintf("(forall ((%s %s)) (! (=> %s %s)%s))", bv, idxSort(fv.Mode), rng, body.S, ps), Sort: SBool}
+		}
 		return Term{S: fmt.Sprintf("(forall ((%s %s)) (=> %s %s))", bv, idxSort(fv.Mode), rng, body.S), Sort: SBool}
 	}
 	return Term{S: fmt.Sprintf("(exists ((%s %s)) (and %s %s))", bv, idxSort(fv.Mode), rng, body.S), Sort: SBool}
@@ -381,7 +398,7 @@ func (e *Env) field(x EField) Term {
 			if st.Field(i).Name() == x.Name {
 				s := fv.sortOf(st.Field(i).Type())
 				h := fv.heapTerm(e.st, heapKey(pt.Elem(), x.Name), s)
-				return Term{S: app("select", h.S, b.S), Sort: s, Go: st.Field(i).Type()}
+				return Term{S: selStore(h.S, b.S), Sort: s, Go: st.Field(i).Type()}
 			}
 		}
 		e.fail("no field %s in %s", x.Name, pt.Elem())
@@ -608,7 +625,19 @@ func (e *Env) callExpr(x ECall) Term {
 		// prefix(a, b): b is a prefix of a
 		argn(2)
 		a, b := e.argBytes(x.Args[0]), e.argBytes(x.Args[1])
-		return Term{S: smtAnd(fv.ile(fv.lenOf(b), fv.lenOf(a)), fv.forallCopy(a, fv.ilit(0), b, fv.ilit(0), fv.lenOf(b))), Sort: SBool}
+		if !sameSort(a.Sort, b.Sort) {
+			e.fail("prefix() of different sequence sorts")
+		}
+		return Term{S: smtAnd(fv.ile(fv.lenOf(b), fv.lenOf(a)), fv.pfx(a, b)), Sort: SBool}
+	case "contentat":
+		// contentat(a, n, b): a[n : n+len(b)] == b
+		argn(3)
+		a, b := e.argBytes(x.Args[0]), e.argBytes(x.Args[2])
+		n := e.coerce(e.eval(x.Args[1]), SInt)
+		if !sameSort(a.Sort, b.Sort) {
+			e.fail("contentat() of different sequence sorts")
+		}
+		return Term{S: fv.sfx(a, n.S, b), Sort: SBool}
 	case "eqbytes":
 		argn(2)
 		a, b := e.argBytes(x.Args[0]), e.argBytes(x.Args[1])
@@ -731,7 +760,7 @@ func (e *Env) callExpr(x ECall) Term {
 		argn(2)
 		m := e.coerce(e.eval(x.Args[0]), SMath)
 		st := e.coerce(e.eval(x.Args[1]), SMath)
-		return Term{S: app("jstk", m.S, st.S, "0", "91"), Sort: SMath}
+		return Term{S: app("pushstk", m.S, st.S), Sort: SMath}
 	case "plainbyte":
 		argn(1)
 		t := e.coerce(e.eval(x.Args[0]), SByte)
@@ -1004,4 +1033,125 @@ func (fv *FuncVC) lookupSig(key string, e *Env) (*types.Signature, types.Type) {
 		}
 	}
 	return nil, nil
+}
+
+// mathToBV turns a mathematical-integer term built from literals and ite
+// (the shape spec functions produce) into a bit-vector term; anything else
+// goes through int2bv.
+func mathToBV(t string, s Sort) string {
+	t = strings.TrimSpace(t)
+	if n, err := strconv.ParseInt(t, 10, 64); err == nil {
+		return intLit(n, s, ModeBV)
+	}
+	if strings.HasPrefix(t, "(- ") && strings.HasSuffix(t, ")") {
+		if n, err := strconv.ParseInt(strings.TrimSpace(t[3:len(t)-1]), 10, 64); err == nil {
+			return intLit(-n, s, ModeBV)
+		}
+	}
+	if strings.HasPrefix(t, "(ite ") {
+		parts := splitSexpr(t[5 : len(t)-1])
+		if len(parts) == 3 {
+			return "(ite " + parts[0] + " " + mathToBV(parts[1], s) + " " + mathToBV(parts[2], s) + ")"
+		}
+	}
+	return fmt.Sprintf("((_ int2bv %d) %s)", s.W, t)
+}
+
+func splitSexpr(body string) []string {
+	var out []string
+	depth, start := 0, 0
+	for i := 0; i < len(body); i++ {
+		switch body[i] {
+		case '(':
+			depth++
+		case ')':
+			depth--
+		case ' ':
+			if depth == 0 {
+				if p := strings.TrimSpace(body[start:i]); p != "" {
+					out = append(out, p)
+				}
+				start = i + 1
+			}
+		}
+	}
+	if p := strings.TrimSpace(body[start:]); p != "" {
+		out = append(out, p)
+	}
+	return out
+}
+
+// selectPatterns: the innermost (select ...) subterms of body that mention
+// the bound variable; each is offered to the solver as an alternative trigger.
+func selectPatterns(body, bv string) []string {
+	var out []string
+	seen := map[string]bool{}
+	for i := 0; i+8 < len(body); i++ {
+		if !strings.HasPrefix(body[i:], "(select ") {
+			continue
+		}
+		depth := 0
+		j := i
+		for ; j < len(body); j++ {
+			if body[j] == '(' {
+				depth++
+			} else if body[j] == ')' {
+				depth--
+				if depth == 0 {
+					break
+				}
+			}
+		}
+		t := body[i : j+1]
+		if !containsToken(t, bv) || strings.Contains(t[1:], "(select ") && containsToken(innerSelects(t), bv) {
+			continue
+		}
+		if strings.Contains(t, "(forall ") || strings.Contains(t, "(ite ") || strings.Contains(t, "(let ") {
+			continue
+		}
+		if strings.Contains(t, "(* ") || strings.Contains(t, "(div ") || strings.Contains(t, "(mod ") {
+			return nil // non-linear index: leave the quantifier to model-based instantiation
+		}
+		if !seen[t] && len(out) < 4 {
+			seen[t] = true
+			out = append(out, t)
+		}
+	}
+	return out
+}
+
+func innerSelects(t string) string {
+	// text of nested select terms inside t (excluding t itself)
+	var sb strings.Builder
+	for i := 1; i+8 < len(t); i++ {
+		if strings.HasPrefix(t[i:], "(select ") {
+			depth := 0
+			for j := i; j < len(t); j++ {
+				if t[j] == '(' {
+					depth++
+				} else if t[j] == ')' {
+					depth--
+					if depth == 0 {
+						sb.WriteString(t[i : j+1])
+						sb.WriteByte(' ')
+						break
+					}
+				}
+			}
+		}
+	}
+	return sb.String()
+}
+
+func containsToken(s, tok string) bool {
+	for i := 0; i+len(tok) <= len(s); i++ {
+		if s[i:i+len(tok)] == tok {
+			before := i == 0 || strings.ContainsRune("( )", rune(s[i-1]))
+			after := i+len(tok) == len(s) || strings.ContainsRune("( )", rune(s[i+len(tok)]))
+			if before && after {
+				return true
+			}
+		}
+	}
+	return false
 }
